@@ -88,7 +88,7 @@ class LabelParser:
                 same = all(d is not None and m is not None and model.ekey(d) == model.ekey(d0) and model.ekey(m) == model.ekey(m0) for d, m in mem) if d0 is not None and m0 is not None else False
                 out.append((k, d0, m0) if same else (k, "MISMATCH", "MISMATCH"))
         for lab, vals in self.atoms.items():
-            if lab and t.startswith(lab, i):
+            if t.startswith(lab, i):  # (an empty label is read without consuming anything)
                 for d, m in vals:
                     out.append((i + len(lab), d, m))
         for sym, pm in self.prefixes.items():
@@ -185,7 +185,7 @@ def comb(d, m, d2, m2, sign):
 
 def readings(text, atoms, prefixes):
     if text == "":
-        return [({}, {})]
+        return list(atoms[""]) if "" in atoms else [({}, {})]
     p = LabelParser(text, atoms, prefixes)
     return [(d, m) for j, d, m in p.label(0) if j == len(text)]
 
@@ -200,7 +200,8 @@ def wrap_typedefs(tree, rnd, decls, tdinfo, leaves, depth=0):
         inner = tree
         name = f"VfT{len(tdinfo)}"
         labeled = rnd.random() < 0.5
-        lab = f"t{len(tdinfo)}x" if labeled else None
+        # (a user unit may also carry the empty string as its label - a dimensionless "count", say)
+        lab = ("" if rnd.random() < 0.15 else f"t{len(tdinfo)}x") if labeled else None
         tdinfo[name] = (inner, lab)
         return ("leaf", name)
     if k in ("mul", "div"):
